@@ -110,7 +110,7 @@ Qed.
 Theorem defer_lifo P0 ks n : (length ks + 6 < n)%nat ->
   m_run n (map emit_clo ks :: P0) 0 = Some (RNormal, 0, ks).
 Proof.
-  intros Hn. unfold m_run. destruct n as [|n]; [lia|]. simpl m_frame. unfold body_of. simpl nth.
+  intros Hn. unfold m_run, mc_run. destruct n as [|n]; [lia|]. simpl mc_frame. unfold body_of. simpl nth.
   rewrite m_acts_install by lia. rewrite app_nil_r, <- map_rev.
   edestruct (m_defers_emit (map emit_clo ks :: P0) 0%nat (rev ks) n 0 (mkG None None None false false 1) [])
     as (g' & Hm & _); [rewrite rev_length; lia|reflexivity|reflexivity|].
@@ -169,6 +169,11 @@ Proof. split; reflexivity. Qed.
 (* finding C07-1: an inner panic raised and recovered inside a deferred call swallows the outer panic *)
 Definition k1 : prog := [[ADeferClo [ADeferClo [ARecover]; APanic 2]; APanic 1]].
 
-Lemma nested_recovered_refuted :
-  sem_run 30 k1 0 = Some (RPanic 1, 0, [1002]) /\ m_run 30 k1 0 = Some (RNormal, 0, [1002]).
+(* before the fix (fx = false) the modelled executor returned normally; with restorePanic it agrees with Go *)
+Lemma nested_recovered_refuted_before_fix :
+  sem_run 30 k1 0 = Some (RPanic 1, 0, [1002]) /\ mc_run false 30 k1 0 = Some (RNormal, 0, [1002]).
+Proof. split; reflexivity. Qed.
+
+Lemma nested_recovered_fixed :
+  sem_run 30 k1 0 = Some (RPanic 1, 0, [1002]) /\ m_run 30 k1 0 = Some (RPanic 1, 0, [1002]).
 Proof. split; reflexivity. Qed.
